@@ -1,0 +1,104 @@
+//! Verification hook (compiled only with `--cfg vls_verif`): a drop-in replacement for
+//! `std::sync::{Mutex, MutexGuard}` that reports lock events to an optional, externally
+//! installed tracer.  With no tracer installed it behaves exactly like the std mutex.
+//!
+//! Events: `before_lock` (the calling thread is about to block on / acquire the lock; a tracer
+//! may delay the thread here to impose a schedule), `after_lock` (acquired, reported while the
+//! lock is held), `unlock` (about to be released, reported while the lock is still held).
+//! The lock "class" is the type name of the protected value.
+
+use std::ops::{Deref, DerefMut};
+use std::sync::{Arc, LockResult, PoisonError, RwLock};
+
+/// Receiver of lock events
+pub trait LockTracer: Send + Sync {
+    /// The calling thread wants the lock of `class` at `addr`
+    fn before_lock(&self, class: &'static str, addr: usize);
+    /// The calling thread now holds the lock
+    fn after_lock(&self, class: &'static str, addr: usize);
+    /// The calling thread is releasing the lock
+    fn unlock(&self, class: &'static str, addr: usize);
+}
+
+static TRACER: RwLock<Option<Arc<dyn LockTracer>>> = RwLock::new(None);
+
+/// Install (or remove) the tracer
+pub fn set_lock_tracer(tracer: Option<Arc<dyn LockTracer>>) {
+    *TRACER.write().unwrap() = tracer;
+}
+
+fn tracer() -> Option<Arc<dyn LockTracer>> {
+    TRACER.read().unwrap().clone()
+}
+
+/// Traced mutex
+pub struct Mutex<T: ?Sized> {
+    inner: std::sync::Mutex<T>,
+}
+
+/// Guard of a traced mutex
+pub struct MutexGuard<'a, T: ?Sized + 'a> {
+    inner: Option<std::sync::MutexGuard<'a, T>>,
+    addr: usize,
+}
+
+impl<T> Mutex<T> {
+    /// Create
+    pub fn new(t: T) -> Mutex<T> {
+        Mutex { inner: std::sync::Mutex::new(t) }
+    }
+}
+
+impl<T: ?Sized> Mutex<T> {
+    /// Lock
+    pub fn lock(&self) -> LockResult<MutexGuard<'_, T>> {
+        let addr = &self.inner as *const _ as *const () as usize;
+        let class = core::any::type_name::<T>();
+        let t = tracer();
+        if let Some(t) = &t {
+            t.before_lock(class, addr);
+        }
+        let res = self.inner.lock();
+        if let Some(t) = &t {
+            t.after_lock(class, addr);
+        }
+        match res {
+            Ok(g) => Ok(MutexGuard { inner: Some(g), addr }),
+            Err(p) => Err(PoisonError::new(MutexGuard { inner: Some(p.into_inner()), addr })),
+        }
+    }
+}
+
+impl<T: ?Sized> Deref for MutexGuard<'_, T> {
+    type Target = T;
+    fn deref(&self) -> &T {
+        self.inner.as_ref().unwrap()
+    }
+}
+
+impl<T: ?Sized> DerefMut for MutexGuard<'_, T> {
+    fn deref_mut(&mut self) -> &mut T {
+        self.inner.as_mut().unwrap()
+    }
+}
+
+impl<T: ?Sized> Drop for MutexGuard<'_, T> {
+    fn drop(&mut self) {
+        if let Some(t) = tracer() {
+            t.unlock(core::any::type_name::<T>(), self.addr);
+        }
+        self.inner.take();
+    }
+}
+
+impl<T: ?Sized + core::fmt::Debug> core::fmt::Debug for MutexGuard<'_, T> {
+    fn fmt(&self, f: &mut core::fmt::Formatter<'_>) -> core::fmt::Result {
+        core::fmt::Debug::fmt(&**self, f)
+    }
+}
+
+impl<T: ?Sized + core::fmt::Debug> core::fmt::Debug for Mutex<T> {
+    fn fmt(&self, f: &mut core::fmt::Formatter<'_>) -> core::fmt::Result {
+        f.write_str("Mutex")
+    }
+}
